@@ -33,7 +33,7 @@ def cases(tier, seed):
     for d, path, nq, (adiab, chi) in itertools.product((2, 3), ('general', 'cu'), (4, 5), ((True, 0), (True, 1), (False, None))):
         if path == 'cu' and d != 3:
             continue
-        out.append({'kind': 'qnsolver', 'd': d, 'nc': 5, 'path': path, 'nq': nq, 'adiabatic': adiab, 'chi': chi, 'cost': 200})
+        out.append({'kind': 'qnsolver', 'd': d, 'nc': 5, 'path': path, 'nq': nq, 'adiabatic': adiab, 'chi': chi, 'B': 1.0 if (d + nq) % 2 else 1.3, 'cost': 200})
     return out
 
 
@@ -248,13 +248,14 @@ def _qnsolver(case):
     n0 = lambda r: init.n0(r, c.CN0, c.kN0, c.deltaRN0, c.rp)                      # noqa
     Te = lambda r: init.Te(r, c.CTe, c.kTe, c.deltaRTe, c.rp)                      # noqa
     g = lambda r: init.n0deriv_normalised(r, c.kN0, c.rp, c.deltaRN0)              # noqa
-    M0 = dict(A=lambda r: -1.0, B=lambda r: -(1 / r + g(r)), C=lambda r: 0.0, D=lambda r: -1 / r ** 2, E=lambda r: 1 / n0(r))
-    MC = dict(M0, C=(lambda r: 1 / Te(r)) if adiab else (lambda r: 0.0))
+    Bf = case['B']
+    M0 = dict(A=lambda r: -1.0, B=lambda r: -(1 / r + g(r)), C=lambda r: 0.0, D=lambda r: -1 / r ** 2, E=lambda r: Bf * Bf / n0(r))
+    MC = dict(M0, C=(lambda r: Bf * Bf / Te(r)) if adiab else (lambda r: 0.0))
     K0n, KD, MM = _dense_reference(Sg, breaks, qdeg, M0)
     K0c, _, _ = _dense_reference(Sg, breaks, qdeg, MC)
     mv = np.fft.fftfreq(nq, 1 / nq)
     rowsR = np.array([Sg.row(x, 0) for x in rpts])
-    tag = 'QuasiNeutralitySolver degree=%d path=%s ntheta=%d adiabatic=%s chi=%r' % (d, case['path'], nq, adiab, chi)
+    tag = 'QuasiNeutralitySolver degree=%d path=%s ntheta=%d adiabatic=%s chi=%r B=%g' % (d, case['path'], nq, adiab, chi, case['B'])
     evals = 0
     worst = 0.0
     for p in (1, 2, 3):
@@ -272,7 +273,7 @@ def _qnsolver(case):
             phi = Grid(eta, [None] * 3, h, 'mode_solve', comm, dtype=np.complex128)
             rho = Grid(eta, [None] * 3, h, 'mode_solve', comm, dtype=np.complex128)
             kw = {'chi': chi} if adiab else {}
-            qn = QuasiNeutralitySolver(eta, qdeg, rs, c, adiabaticElectrons=adiab, **kw)
+            qn = QuasiNeutralitySolver(eta, qdeg, rs, c, adiabaticElectrons=adiab, B=Bf, **kw)
             l = rho.getLayout('mode_solve')
             sl = tuple(slice(int(x), int(y)) for x, y in zip(l.starts, l.ends))
             res = []
